@@ -64,7 +64,7 @@ ADAPTIVE = {
 }
 TUNE = {
     "quick": {"min_step": (0.01, 0.1, 1.0), "num": (2, 3, 5, 10), "step_factor": (1.5, 3.0, 10.0)},
-    "thorough": {"min_step": (0.001, 0.01, 0.1, 0.5, 1.0, 6.0), "num": (2, 3, 4, 5, 10, 17), "step_factor": (1.01, 1.5, 2.0, 3.0, 10.0)},
+    "thorough": {"min_step": (0.001, 0.01, 0.1, 0.5, 1.0, 6.0), "num": (2, 3, 4, 5, 10, 17), "step_factor": (1.1, 1.5, 2.0, 3.0, 10.0)},
 }
 
 RULE = (
@@ -83,6 +83,8 @@ ASSUMPTIONS = [
     "the motor is ideal (readback equals the last commanded position); responses are finite floats (no NaN/inf)",
     "1e-9 absolute tolerance on the interval test (tune_centroid's centroid is a float quotient)",
     "an exception raised by the plan counts as termination (recorded as an outcome class)",
+    "grids are chosen so that a converging tune_centroid needs < 10 000 messages (step_factor >= 1.1, min_step >= 0.001): the "
+    "50 000 message horizon separates slow convergence from non-termination",
 ]
 
 
